@@ -1288,14 +1288,30 @@ impl Session {
                         Some(sent) => sent,
                         None => sent_at,
                     };
-                    let write =
-                        session.write_control_frame(Frame::control(Command::HeartRequest, 0));
+                    // The write runs in its own task: when the deadline passes only the WAIT for it ends. Cancelling
+                    // the write itself could leave half a frame on a transport that then turns out to be alive.
+                    let write = tokio::spawn({
+                        let session = Arc::clone(&session);
+                        async move {
+                            session
+                                .write_control_frame(Frame::control(Command::HeartRequest, 0))
+                                .await
+                        }
+                    });
                     let written = match oldest.checked_add(heartbeat_state.timeout) {
                         Some(at) => match time::timeout_at(at, write).await {
-                            Ok(result) => Some(result),
+                            Ok(joined) => Some(joined),
                             Err(_) => None,
                         },
                         None => Some(write.await),
+                    };
+                    let written = match written {
+                        Some(Ok(result)) => Some(result),
+                        Some(Err(join_error)) => Some(Err(AnyTlsError::Protocol(format!(
+                            "keep-alive write task failed: {}",
+                            join_error
+                        )))),
+                        None => None,
                     };
                     match written {
                         Some(Ok(())) => {}
